@@ -1,5 +1,5 @@
 use std::cell::RefCell;
-use std::collections::{BTreeMap, BTreeSet};
+use std::collections::{BTreeMap, BTreeSet, HashSet};
 use std::io::Write as _;
 use std::panic::{AssertUnwindSafe, catch_unwind};
 use std::path::{Path, PathBuf};
@@ -344,6 +344,21 @@ impl Scratch {
 impl Drop for Scratch {
     fn drop(&mut self) {
         let _ = std::fs::remove_dir_all(&self.path);
+    }
+}
+
+/// Removes what a finished (or killed) worker process left in the scratch area: workers end
+/// with `process::exit`, so scratch directories held in statics are never dropped.
+pub fn cleanup_scratch_of(pid: u32) {
+    for base in [PathBuf::from("/dev/shm"), std::env::temp_dir()] {
+        let prefix = format!("verif-{pid}-");
+        if let Ok(rd) = std::fs::read_dir(&base) {
+            for e in rd.flatten() {
+                if e.file_name().to_string_lossy().starts_with(&prefix) {
+                    let _ = std::fs::remove_dir_all(e.path());
+                }
+            }
+        }
     }
 }
 
@@ -747,6 +762,24 @@ pub fn main_entry(checks: &[&dyn Check]) -> ! {
     let code = match args.get(1).map(|s| s.as_str()) {
         Some("--worker") => worker_main(checks, &args[2..]),
         Some("--replay") => replay_main(checks, &args[2..]),
+        Some("--emit-fuzz-corpus") => {
+            let id = args.get(2).cloned().unwrap_or_default();
+            let dir = args.get(3).cloned().unwrap_or_default();
+            let n = args.get(4).and_then(|s| s.parse().ok()).unwrap_or(16);
+            match checks.iter().find(|c| c.id() == id) {
+                Some(c) => match emit_fuzz_corpus(*c, Path::new(&dir), n) {
+                    Ok(k) => {
+                        println!("{k} inputs");
+                        0
+                    }
+                    Err(e) => {
+                        eprintln!("{e}");
+                        2
+                    }
+                },
+                None => 2,
+            }
+        }
         Some("--list") => {
             for c in checks {
                 println!("{}", c.id());
@@ -768,6 +801,7 @@ pub fn main_entry(checks: &[&dyn Check]) -> ! {
             2
         }
     };
+    cleanup_scratch_of(std::process::id());
     std::process::exit(code)
 }
 
@@ -977,6 +1011,7 @@ fn orchestrate(check: &dyn Check, tier: Tier) -> i32 {
             };
             if let Some(status) = done {
                 let r = running.swap_remove(i);
+                cleanup_scratch_of(r.child.id());
                 let out = std::fs::read_to_string(&r.stdout_path).unwrap_or_default();
                 let parsed = out
                     .lines()
@@ -1106,4 +1141,131 @@ fn orchestrate(check: &dyn Check, tier: Tier) -> i32 {
         return 2;
     }
     0
+}
+
+// ---------------------------------------------------------------------------------------------
+// coverage-guided driver (libFuzzer): bytes -> slotted tape -> the same run_case and oracle
+
+/// Bytes are cut into fixed-width slots of `max_tape` little-endian u32 words: slot 0 is the
+/// header, every further chunk one operation. A short last chunk is a short slot.
+pub fn tape_from_fuzz_bytes(data: &[u8], max_tape: usize) -> Tape {
+    let w = max_tape.max(1) * 4;
+    let slots: Vec<Vec<u32>> = data
+        .chunks(w)
+        .map(|chunk| {
+            chunk
+                .chunks(4)
+                .map(|c| {
+                    let mut b = [0u8; 4];
+                    b[..c.len()].copy_from_slice(c);
+                    u32::from_le_bytes(b)
+                })
+                .collect()
+        })
+        .collect();
+    Tape::new_slots(slots)
+}
+
+/// Inverse of `tape_from_fuzz_bytes` (slots longer than `max_tape` are cut, shorter ones are
+/// zero-padded, which reads the same).
+pub fn fuzz_bytes_from_slots(slots: &[Vec<u32>], max_tape: usize) -> Vec<u8> {
+    let mut out = Vec::new();
+    for s in slots {
+        for i in 0..max_tape.max(1) {
+            out.extend_from_slice(&s.get(i).copied().unwrap_or(0).to_le_bytes());
+        }
+    }
+    out
+}
+
+pub struct FuzzCtx {
+    pub env: Env,
+    pub plan: Plan,
+    pub execs: u64,
+    pub nontrivial: HashSet<u64>,
+    pub known_hits: BTreeMap<String, u64>,
+}
+
+impl FuzzCtx {
+    pub fn new(check: &dyn Check) -> FuzzCtx {
+        install_panic_hook();
+        raise_fd_limit();
+        let seed = seed_from_env();
+        let hint = std::env::var("VERIF_FUZZ_HINT").ok().and_then(|s| s.parse().ok());
+        FuzzCtx { env: Env { tier: Tier::Thorough, seed, strict: false, known: Known::load(), shard: 0, hint }, plan: check.plan(Tier::Thorough), execs: 0, nontrivial: HashSet::new(), known_hits: BTreeMap::new() }
+    }
+
+    /// One libFuzzer execution. Returns the replay path when the case violates the property
+    /// with a signature that is not a listed known finding; the caller aborts the process so
+    /// that libFuzzer keeps the input as an artifact.
+    pub fn one(&mut self, check: &dyn Check, data: &[u8]) -> Option<PathBuf> {
+        if open_fds() > FD_PRESSURE {
+            // leaked descriptors of earlier executions: stop this process cleanly, the
+            // campaign driver starts the next one from the saved corpus
+            self.finish(check);
+            std::process::exit(0);
+        }
+        let mut tape = tape_from_fuzz_bytes(data, self.plan.max_tape);
+        if tape.slots().len() > self.plan.max_slots.max(1) + 1 {
+            return None;
+        }
+        let out = exec_case(check, &mut tape, &self.env);
+        self.execs += 1;
+        if self.execs % 100 == 0 {
+            self.finish(check);
+        }
+        if out.nontrivial {
+            self.nontrivial.insert(out.fingerprint ^ fnv1a(data));
+        }
+        for f in &out.failures {
+            if self.env.known.has(&f.signature) {
+                *self.known_hits.entry(f.signature.clone()).or_insert(0) += 1;
+                continue;
+            }
+            let rec = ViolationRec { signature: f.signature.clone(), message: f.message.clone(), tape: Some(tape.slots().clone()), params: None, sample: out.sample.clone(), hint: out.hint.or(self.env.hint) };
+            let path = write_replay(check.id(), self.env.seed, &rec);
+            println!("failure {}: {}", f.signature, f.message);
+            println!("VIOLATION property={} replay={}", check.id(), path.display());
+            self.finish(check);
+            return Some(path);
+        }
+        None
+    }
+
+    /// Writes this process's counters to `<VERIF_FUZZ_STATS>.<pid>` (overwritten as the
+    /// campaign goes; merged into the evidence by the campaign driver).
+    pub fn finish(&self, check: &dyn Check) {
+        if let Ok(p) = std::env::var("VERIF_FUZZ_STATS") {
+            let _ = std::fs::write(format!("{p}.{}", std::process::id()), json!({"id": check.id(), "execs": self.execs, "nontrivial": self.nontrivial.len(), "known_hits": self.known_hits}).to_string());
+        }
+    }
+}
+
+/// `<bin> --emit-fuzz-corpus <ID> <dir> [n]`: the committed corpus of the check plus `n` seeded
+/// random tapes, as libFuzzer input files.
+pub fn emit_fuzz_corpus(check: &dyn Check, dir: &Path, n: usize) -> std::io::Result<usize> {
+    std::fs::create_dir_all(dir)?;
+    let plan = check.plan(Tier::Thorough);
+    let mut k = 0;
+    for f in corpus_files(check.id()) {
+        let Ok(s) = std::fs::read_to_string(&f) else { continue };
+        let Ok(v) = serde_json::from_str::<Value>(&s) else { continue };
+        if let Some(slots) = v.get("tape").and_then(parse_tape) {
+            std::fs::write(dir.join(format!("corpus-{k:03}")), fuzz_bytes_from_slots(&slots, plan.max_tape))?;
+            k += 1;
+        }
+    }
+    let mut x = mix(seed_from_env(), fnv1a(check.id().as_bytes()));
+    for i in 0..n {
+        let slots_n = plan.min_slots + (mix(x, 1) as usize) % (plan.max_slots.saturating_sub(plan.min_slots) + 1);
+        let mut slots = Vec::new();
+        for si in 0..slots_n {
+            let len = 1 + (mix(x, 2 + si as u64) as usize) % plan.max_tape.max(1);
+            slots.push((0..len).map(|j| mix(x, ((si as u64) << 16) | j as u64) as u32).collect::<Vec<u32>>());
+        }
+        std::fs::write(dir.join(format!("seeded-{i:03}")), fuzz_bytes_from_slots(&slots, plan.max_tape))?;
+        x = mix(x, 0x9E37);
+        k += 1;
+    }
+    Ok(k)
 }
